@@ -141,7 +141,7 @@ func c07Emissions(c *Case, r *RunResult, init []world.FileState, soloPrint func(
 			if !ok {
 				continue
 			}
-			if bytes.Contains(o.Data, []byte("\r")) || !bytes.HasSuffix(o.Data, []byte("\n")) {
+			if bytes.Contains(o.Data, []byte("\r")) {
 				continue
 			}
 			res, err := ApplyUnified(string(o.Data), df)
